@@ -1671,3 +1671,86 @@ Proof.
   - apply G in Hk. discriminate Hk.
   - apply G in Hk. discriminate Hk.
 Qed.
+
+(* ======================================================================================== *)
+(* reachable states                                                                          *)
+(* ======================================================================================== *)
+
+Lemma exec_inv : forall c ops s, Inv c s -> Inv c (exec c s ops).
+Proof.
+  intros c. induction ops as [|o t IH]; intros s I0; cbn [exec]; auto.
+  destruct (finished s) eqn:F; auto. apply IH. now apply step_inv.
+Qed.
+
+Theorem reachable_inv : forall c ops, Inv c (exec c (init c) ops).
+Proof. intros. apply exec_inv, init_inv. Qed.
+
+Theorem trace_nofuel : forall c ops, Forall (fun seg => ~ In (Panic PFuel) seg) (trace c ops).
+Proof.
+  intros c ops. unfold trace. apply run_Forall; [|apply init_inv].
+  intros s o I0 F. destruct (op_eq_poll_dec o) as [->|Hn].
+  - cbn [step]. now apply poll_fuel_sufficient.
+  - intros Hin. pose proof (step_nonpoll_basic c s o Hn) as B. rewrite Forall_forall in B.
+    apply B in Hin. exact Hin.
+Qed.
+
+(* none lost: while the worker is serving, every connection pushed so far has been called, in
+   order, or is still queued, in order *)
+Lemma exec_conservation : forall c ops s, Inv c s -> live (exec c s ops) ->
+  cq s ++ pushes_from (cq_open s) ops = calls_of (concat (run c s ops)) ++ cq (exec c s ops).
+Proof.
+  intros c. induction ops as [|o t IH]; intros s I0 LE.
+  { cbn. destruct (cq_open s); cbn; now rewrite app_nil_r. }
+  cbn [run exec] in *. destruct (finished s) eqn:F.
+  { apply live_unfinished in LE. congruence. }
+  destruct (step c s o) as [s' l] eqn:Es. cbn [fst] in *.
+  pose proof (step_inv c s o I0 F) as I1. rewrite Es in I1. cbn [fst] in I1.
+  specialize (IH s' I1 LE). cbn [concat]. rewrite calls_of_app, <- app_assoc, <- IH.
+  assert (L' : live s').
+  { destruct (live_dec s') as [L'|NL']; auto. exfalso.
+    clear - NL' LE I1. revert s' NL' LE I1. induction t as [|o2 t2 IH2]; intros s' NL' LE I1; cbn [exec] in LE.
+    - contradiction.
+    - destruct (finished s') eqn:F'; [contradiction|].
+      apply (IH2 (fst (step c s' o2))); auto; [|now apply step_inv].
+      destruct (op_eq_poll_dec o2) as [->|Hn].
+      + cbn [step]. now apply poll_notlive.
+      + intros X. apply NL'. eapply live_ws; [|exact X]. symmetry. now apply step_nonpoll_ws. }
+  destruct (op_eq_poll_dec o) as [->|Hn].
+  - cbn [step] in Es. pose proof (poll_cq c s I0 F) as (rest0 & E0 & EL).
+    pose proof (poll_open c s I0 F) as EO.
+    rewrite Es in E0, EL, EO. cbn [fst snd] in *. rewrite (EL L'), EO.
+    rewrite E0, <- app_assoc. reflexivity.
+  - pose proof (step_nonpoll_basic c s o Hn) as B. rewrite Es in B. cbn [snd] in B.
+    rewrite (calls_of_nocall _ (basic_nocall _ B)). cbn [app].
+    clear - Es Hn. destruct o; try congruence; cbn [step] in Es.
+    + destruct (cq_open s) eqn:Eo.
+      * destruct (gap s); injection Es as <- <-; sel; rewrite Eo; cbn [pushes_from pushes_of];
+          rewrite <- app_assoc; reflexivity.
+      * injection Es as <- <-. rewrite Eo. reflexivity.
+    + destruct (gap s); injection Es as <- <-; sel; destruct (cq_open s); reflexivity.
+    + injection Es as <- <-. sel. destruct (cq_open s); reflexivity.
+    + destruct (mem_nat cid (inprog s)); injection Es as <- <-; sel; destruct (cq_open s); reflexivity.
+    + injection Es as <- <-. sel. destruct (cq_open s); reflexivity.
+    + destruct (gap s); injection Es as <- <-; sel; destruct (cq_open s); cbn [pushes_from pushes_of];
+        rewrite ?app_nil_r; reflexivity.
+Qed.
+
+Theorem none_lost : forall c ops, live (exec c (init c) ops) ->
+  pushes_of ops = calls_of (concat (trace c ops)) ++ cq (exec c (init c) ops).
+Proof.
+  intros c ops L. pose proof (exec_conservation c ops (init c) (init_inv c) L) as H.
+  cbn in H. exact H.
+Qed.
+
+(* check_readiness never skips a service: whenever it runs (state Available / Unavailable),
+   every service has status Available or Unavailable *)
+Theorem all_services_checked : forall c ops,
+  let s := exec c (init c) ops in
+  match ws s with
+  | WAvailable | WUnavailable => Forall (fun v => polled (s_status v) = true) (svcs s)
+  | _ => True
+  end.
+Proof.
+  intros c ops s. pose proof (reachable_inv c ops) as [_ S _]. fold s in S.
+  destruct (ws s); auto.
+Qed.
